@@ -22,12 +22,14 @@ import (
 	"verif/harness/tr"
 )
 
-// wire sends a message through its CBOR encoding, as a peer would receive it.
+// wire sends a message through its CBOR encoding, as a peer would receive it. In deviation mode (otvole_dev.go) the plan's message is
+// altered on the way.
 func wire[T any](v T) (T, error) {
 	data, err := serde.MarshalCBOR(v)
 	if err != nil {
 		panic(fmt.Sprintf("wire: %v", err))
 	}
+	data = wireHook(data)
 	return serde.UnmarshalCBOR[T](data)
 }
 
@@ -90,7 +92,7 @@ func otProject(ev map[string]any, xi int, choices []byte, s [][2][][]byte, r [][
 // runVSOT runs one batch; returns the outputs for use as extension seeds.
 func runVSOT[P curves.Point[P, B, S], B algebra.PrimeFieldElement[B], S algebra.PrimeFieldElement[S]](d *ecDesc[P, B, S], xi, l int, pattern string, ids []ID) (*vsot.SenderOutput, *vsot.ReceiverOutput) {
 	ev := otEv("vsot", d.g.name, xi, l, pattern)
-	defer func() { w.Emit(ev) }()
+	defer emitOT(ev)
 	suite, err := vsot.NewSuite(xi, l, d.curve, sha256.New)
 	if err != nil {
 		otFail(ev, "suite", err)
@@ -164,7 +166,7 @@ func runVSOT[P curves.Point[P, B, S], B algebra.PrimeFieldElement[B], S algebra.
 // runSoftSpoken: the extension's receiver holds the base OT's sender output and vice versa.
 func runSoftSpoken(group string, seedsS *vsot.SenderOutput, seedsR *vsot.ReceiverOutput, xi, l int, pattern string, ids []ID) {
 	ev := otEv("softspoken", group, xi, l, pattern)
-	defer func() { w.Emit(ev) }()
+	defer emitOT(ev)
 	suite, err := softspoken.NewSuite(xi, l, sha256.New)
 	if err != nil {
 		otFail(ev, "suite", err)
@@ -202,7 +204,7 @@ func runSoftSpoken(group string, seedsS *vsot.SenderOutput, seedsR *vsot.Receive
 func runRVoleSoft[P curves.Point[P, B, S], B algebra.PrimeFieldElement[B], S algebra.PrimeFieldElement[S]](d *ecDesc[P, B, S], seedsS *vsot.SenderOutput, seedsR *vsot.ReceiverOutput, L int, kinds []string, ids []ID) {
 	ev := map[string]any{"a": "vole", "k": fmt.Sprintf("vole:rvole-softspoken:%s:L=%d:%v", d.g.name, L, kinds), "proto": "rvole-softspoken", "group": d.g.name, "gbits": groupBits(d.g.name), "L": L,
 		"inputs": kinds, "completed": false, "failedAt": "", "err": "", "class": "", "sumOK": []bool{}, "nC": 0, "nD": 0, "bZero": false}
-	defer func() { w.Emit(ev) }()
+	defer emitOT(ev)
 	fail := func(step string, err error) { otFail(ev, step, err) }
 	suite, err := rvole_softspoken.NewSuite(L, d.curve, sha256.New)
 	if err != nil {
